@@ -38,7 +38,15 @@ type passive struct {
 	send    func(msg []byte, isBroadcast bool, to uint16)
 }
 
-func (p *passive) ClassifyMsg(b []byte) (uint8, bool, error) { return s.Classify(b) }
+func (p *passive) ClassifyMsg(b []byte) (uint8, bool, error) {
+	if len(b) == 0 && p.w.cfg.Lenient != "" {
+		if p.w.cfg.Lenient == "bcast" {
+			return 1, true, nil
+		}
+		return 0, false, nil
+	}
+	return s.Classify(b)
+}
 func (p *passive) Init(parties []uint16, threshold int, sendMsg func(msg []byte, isBroadcast bool, to uint16)) {
 	p.send = sendMsg
 	p.w.mu.Lock()
@@ -46,7 +54,7 @@ func (p *passive) Init(parties []uint16, threshold int, sendMsg func(msg []byte,
 	p.w.mu.Unlock()
 }
 func (p *passive) OnMsg(b []byte, from uint16, bc bool) {
-	p.w.ho = append(p.w.ho, HO{At: p.node, From: from, Bcast: bc, Payload: string(b)})
+	p.w.ho = append(p.w.ho, HO{At: p.node, From: p.w.cfg.nodeOfParty(from), Bcast: bc, Payload: string(b)})
 }
 func (p *passive) KeyGen(ctx context.Context) ([]byte, error) {
 	close(p.entered)
@@ -142,6 +150,24 @@ type rcfg struct {
 	Honest       []uint16
 	All          []uint16 // configured membership (participants + outsiders)
 	T            int      // key-generation threshold (0: number of participants)
+	// Lenient: the backend's classifier does not reject an empty message (it calls it
+	// point-to-point, round 0 - what the tss-lib adapters do) or, with "bcast", broadcast round 1
+	Lenient string
+	// PartyOf: node -> party (nil: identity). Hand-overs are recorded in node space (the party the
+	// backend is told is translated back), so every oracle compares nodes with nodes.
+	PartyOf map[uint16]uint16
+}
+
+func (c rcfg) nodeOfParty(p uint16) uint16 {
+	if c.PartyOf == nil {
+		return p
+	}
+	for n, q := range c.PartyOf {
+		if q == p {
+			return n
+		}
+	}
+	return 60000 + p // a party nobody represents
 }
 
 // rw is one world of real Schemes.
@@ -180,6 +206,9 @@ func newRW(cfg rcfg) *rw {
 	mem := map[tss.UniversalID]tss.PartyID{}
 	for _, id := range cfg.All {
 		mem[tss.UniversalID(id)] = tss.PartyID(id)
+		if cfg.PartyOf != nil {
+			mem[tss.UniversalID(id)] = tss.PartyID(cfg.PartyOf[id])
+		}
 	}
 	for _, id := range cfg.Honest {
 		id := id
